@@ -64,6 +64,7 @@ impl HistoryCheck {
     pub fn new(thorough: bool) -> Self {
         let mut profile = Profile::base(if thorough { 24 } else { 14 }).with_apis(&all_shapes(), 6, 1);
         profile.pct_wide = 1;
+        profile.permille_huge = 0;
         HistoryCheck {
             profile,
             max_actions: if thorough { 300 } else { 150 },
@@ -356,6 +357,7 @@ impl MultiCheck {
     pub fn new(thorough: bool) -> Self {
         let mut profile = Profile::base(if thorough { 24 } else { 14 }).with_apis(&shared_shapes(), 6, 1);
         profile.pct_wide = 1;
+        profile.permille_huge = 0;
         MultiCheck {
             profile,
             max_actions: if thorough { 500 } else { 250 },
